@@ -541,12 +541,16 @@ impl<'a> Repr<'a> {
                 let opt_len = addr.len() + 2;
                 opt.set_data_len(opt_len.div_ceil(8) as u8); // round to next multiple of 8.
                 opt.set_link_layer_addr(addr);
+                // The padding up to that multiple of 8 is zero.
+                opt.buffer.as_mut()[opt_len..opt_len.div_ceil(8) * 8].fill(0);
             }
             Repr::TargetLinkLayerAddr(addr) => {
                 opt.set_option_type(Type::TargetLinkLayerAddr);
                 let opt_len = addr.len() + 2;
                 opt.set_data_len(opt_len.div_ceil(8) as u8); // round to next multiple of 8.
                 opt.set_link_layer_addr(addr);
+                // The padding up to that multiple of 8 is zero.
+                opt.buffer.as_mut()[opt_len..opt_len.div_ceil(8) * 8].fill(0);
             }
             Repr::PrefixInformation(PrefixInformation {
                 prefix_len,
